@@ -91,12 +91,11 @@ def intoRangeSpec (lo hi : Int) (v : Int) : Except ConvErr Int :=
     overflow to +∞.  Returns `(bits, some value)` for a finite result, `(inf bits, none)` otherwise. -/
 def castToFloat (F : Ieee) (x : Nat) : Nat × Option Nat :=
   if x = 0 then (0, some 0) else
-  let r := ieeeRoundMag F x 0
-  if r.1 = F.infBits then (r.1, none)
+  let rm := roundMag F x 0
+  if 2 ^ (F.emax + 1 - F.qmin).toNat ≤ rm.n * 2 ^ (rm.q - F.qmin).toNat then (F.infBits, none)
   else
-    let rm := roundMag F x 0
-    -- n·2^q with q ≥ 0 whenever something was rounded; exact otherwise
-    (r.1, some (if rm.q ≥ 0 then rm.n * 2 ^ rm.q.toNat else x))
+    -- n·2^q with q > 0 whenever something was rounded; exact otherwise
+    ((rm.q - F.qmin).toNat * 2 ^ F.MB + rm.n, some (if rm.q > 0 then rm.n * 2 ^ rm.q.toNat else x))
 
 def flagOfCompare (back x : Nat) : Flag :=
   if back > x then .pos else if back = x then .exact else .neg
@@ -171,6 +170,28 @@ def ibigTryFromFloatAsIs (d : DecConsts) (bits : Nat) : Except ConvErr Int :=
   | .error _ => .error .outOfBounds
   | .ok (man, exp) =>
     if exp ≥ 0 then .ok (man * 2 ^ exp.toNat) else .ok (man / 2 ^ (-exp).toNat)
+
+/-- `TryFrom<fNN> for UBig` in the current tree (fix commit after c06-int-from-float-fraction.diff):
+    `result.trailing_zeros().map_or(false, |z| z < -exp)` ⇒ LossOfPrecision, written here as
+    "a set bit would be shifted out" (`man % 2^(-exp) ≠ 0`, which is what `trailing_zeros < -exp`
+    means for a non-zero mantissa; zero has no trailing_zeros and passes). -/
+def ubigTryFromFloat (d : DecConsts) (bits : Nat) : Except ConvErr Nat :=
+  match decode d bits with
+  | .error _ => .error .outOfBounds
+  | .ok (man, exp) =>
+    if man < 0 then .error .outOfBounds
+    else if exp ≥ 0 then .ok (man.toNat <<< exp.toNat)
+    else if man.toNat % 2 ^ (-exp).toNat ≠ 0 then .error .lossOfPrecision
+    else .ok (man.toNat >>> (-exp).toNat)
+
+/-- `TryFrom<fNN> for IBig` in the current tree -/
+def ibigTryFromFloat (d : DecConsts) (bits : Nat) : Except ConvErr Int :=
+  match decode d bits with
+  | .error _ => .error .outOfBounds
+  | .ok (man, exp) =>
+    if exp ≥ 0 then .ok (man * 2 ^ exp.toNat)
+    else if man.natAbs % 2 ^ (-exp).toNat ≠ 0 then .error .lossOfPrecision
+    else .ok (man / 2 ^ (-exp).toNat)
 
 /-- SPEC (property C06): succeeds only if the float is exactly an integer the target holds -/
 def intFromFloatSpec (d : DecConsts) (signed : Bool) (bits : Nat) : Except ConvErr Int :=
